@@ -1,3 +1,4 @@
+import ExprModel.Proofs.FitsGuard
 import ExprModel.Proofs.RefineTop
 import ExprModel.Proofs.RefineLoopAll
 import ExprModel.Proofs.RefineExample
@@ -275,18 +276,18 @@ example (c : Cfg) (hw : WorldOK c.world) : ∃ N, ∀ fuel, N ≤ fuel → ∀ e
 
 /-! ### `expr.Eval`: source text to result through every model stage
 
-`Api.evalSource` = lexer model, parser model, `compileProgram {}` (no types, no optimiser), `run`.  Whenever the
+`Api.evalSource` = lexer model, parser model, `compileProgram F.compCfg` (no types, no optimiser), `run`.  Whenever the
 text lexes and parses (to `n`) and `n` compiles, evaluating the source is evaluating `n` by the language
 definition — under the exclusions of `run_conforms_checked`, now all but `SmallColl` decidable on the parsed
 tree / compiled program. -/
 
 theorem eval_source_conforms (F : Api.Front) (c : Cfg) (src : String) (ts : List Token) (n : Node) (cp : Compiled)
     (hlex : Lex.lex F.cc F.tables src = .ok ts) (hparse : Parser.parse F.pcfg ts = .ok n)
-    (hcomp : compileProgram {} n = .ok cp) (hfl : floatsOK n = true) (hfit : FitsU16 cp.code)
+    (hcomp : compileProgram F.compCfg n = .ok cp) (hfl : floatsOK n = true) (hfit : FitsU16 cp.code)
     (hg : Good (SmallColl c) n) :
     ∃ N, ∀ fuel, N ≤ fuel → ∃ res final, Api.evalSource F c fuel src = .ran res final ∧
       RunAgrees (res, final) (Spec.run (specOf c) none n) := by
-  obtain ⟨N, hN⟩ := run_conforms_checked {} n cp c hcomp hfl hfit (fun h => by cases h) hg
+  obtain ⟨N, hN⟩ := run_conforms_checked F.compCfg n cp c hcomp hfl hfit (fun h => by cases h) hg
   refine ⟨N, fun fuel hf => ⟨_, _, ?_, hN fuel hf⟩⟩
   simp only [Api.evalSource, hlex, hparse, hcomp]
   rfl
@@ -296,9 +297,34 @@ theorem eval_source_stages (F : Api.Front) (c : Cfg) (fuel : Nat) (src : String)
     (∀ e, Lex.lex F.cc F.tables src = .error e → Api.evalSource F c fuel src = .lexError e) ∧
     (∀ ts e, Lex.lex F.cc F.tables src = .ok ts → Parser.parse F.pcfg ts = .error e →
       Api.evalSource F c fuel src = .parseError e) ∧
-    (∀ ts n e, Lex.lex F.cc F.tables src = .ok ts → Parser.parse F.pcfg ts = .ok n → compileProgram {} n = .error e →
+    (∀ ts n e, Lex.lex F.cc F.tables src = .ok ts → Parser.parse F.pcfg ts = .ok n → compileProgram F.compCfg n = .error e →
       Api.evalSource F c fuel src = .compileError e) := by
   refine ⟨fun e h => ?_, fun ts e h1 h2 => ?_, fun ts n e h1 h2 h3 => ?_⟩ <;> simp only [Api.evalSource, *]
+
+/-! ### the compiler as it is now: no hypothesis about 16-bit operands
+
+Since fix ba2f082 the compiler rejects a jump offset that does not fit the encoding (regenerated fact
+`Gen.jumpGuard`, which the driver hands to the model).  Then every program it returns has all operands below
+65536 (`Refine.fitsU16_of_guard`: constant indices by the pool limit, jump offsets by the guard), and the
+`FitsU16` hypothesis of the theorems above disappears. -/
+
+theorem run_conforms_guarded (cfg : CompCfg) (hcfg : Bc.CompCfgOk cfg) (hguard : cfg.jumpGuard = true) (n : Node)
+    (cp : Compiled) (c : Cfg) (hc : compileProgram cfg n = .ok cp) (hfl : floatsOK n = true)
+    (henv : EnvOK c cfg) (hg : Good (SmallColl c) n) :
+    ∃ N, ∀ fuel, N ≤ fuel → RunAgrees (run c (progOf cp) fuel) (Spec.run (specOf c) cfg.cast n) :=
+  run_conforms_checked cfg n cp c hc hfl (fitsU16_of_guard cfg hcfg hguard n cp hc) henv hg
+
+/-- `expr.Eval` on the current code: whenever the text lexes, parses and compiles, evaluating the source is
+    evaluating the parsed tree by the language definition — left are `floatsOK` (no literal pair ±0.0, the
+    listed finding) and `Good` (tree shape; collection sizes below 2^63). -/
+theorem eval_source_conforms_guarded (F : Api.Front) (hguard : F.jumpGuard = true) (c : Cfg) (src : String)
+    (ts : List Token) (n : Node) (cp : Compiled)
+    (hlex : Lex.lex F.cc F.tables src = .ok ts) (hparse : Parser.parse F.pcfg ts = .ok n)
+    (hcomp : compileProgram F.compCfg n = .ok cp) (hfl : floatsOK n = true) (hg : Good (SmallColl c) n) :
+    ∃ N, ∀ fuel, N ≤ fuel → ∃ res final, Api.evalSource F c fuel src = .ran res final ∧
+      RunAgrees (res, final) (Spec.run (specOf c) none n) :=
+  eval_source_conforms F c src ts n cp hlex hparse hcomp hfl
+    (fitsU16_of_guard F.compCfg (fun t h => by cases h) hguard n cp hcomp) hg
 
 /-! ### `expr.Compile` + `expr.Run` with a typed environment: every model stage in a row
 
@@ -413,6 +439,22 @@ theorem compile_source_conforms (F : Api.Front) (T : Api.TypedCfg) (c : Cfg) (sr
   refine ⟨N, fun fuel hf => ⟨_, _, ?_, hN fuel hf⟩⟩
   simp only [Api.runSource, h]
   rfl
+
+/-- the same for the compiler as it is now (offset guard): no `FitsU16` hypothesis -/
+theorem compile_source_conforms_guarded (F : Api.Front) (T : Api.TypedCfg) (hguard : T.jumpGuard = true) (c : Cfg)
+    (src : String) (cp : Compiled) (checked final : Node)
+    (h : Api.compileSource F T c.world src = .ok cp checked final)
+    (hfl : floatsOK final = true) (henv : EnvOK c T.compCfg) (hg : Good (SmallColl c) final) :
+    ∃ N, ∀ fuel, N ≤ fuel → ∃ res fin, Api.runSource F T c fuel src = .ran cp res fin ∧
+      RunAgrees (res, fin) (Spec.run (specOf c) (Api.castOf T.check.expect) final) := by
+  obtain ⟨_, ts, n, n1, t1, n2, t3, _, _, _, _, _, _, hcomp⟩ := compileSource_ok_inv h
+  have hcfg : Bc.CompCfgOk T.compCfg := by
+    intro t ht
+    simp only [Api.TypedCfg.compCfg] at ht
+    unfold Api.castOf at ht
+    split at ht <;> first | (cases ht; omega) | cases ht
+  exact compile_source_conforms F T c src cp checked final h hfl
+    (fitsU16_of_guard T.compCfg hcfg hguard final cp hcomp) henv hg
 
 /-- … and, through C02, with the language definition on `checked`, the tree the checker accepted (annotated,
     not yet optimised) — for the optimizer as it is now (`Flags.asIs`), under C02's hypotheses: `g` selects
